@@ -13,6 +13,17 @@ from __future__ import annotations
 from harness import pylite
 
 
+def ast_arg_is(fn, call: str, arg: str) -> bool:
+    """Is there exactly one call `<call>(<arg>)` in the function?"""
+    import ast
+    import inspect
+    import textwrap
+
+    tree = ast.parse(textwrap.dedent(inspect.getsource(fn)))
+    hits = [n for n in ast.walk(tree) if isinstance(n, ast.Call) and ast.unparse(n.func) == call]
+    return len(hits) == 1 and len(hits[0].args) == 1 and ast.unparse(hits[0].args[0]) == arg
+
+
 def generate() -> dict[str, str]:
     from exabgp.reactor.peer.peer import Peer
 
@@ -48,6 +59,16 @@ def generate() -> dict[str, str]:
             skip_prefixes=('if self._neighbor:',),  # the neighbor definition of a reload is taken over: M-Reload (C17)
         ),
     )
+    # ---- teardown / reestablish / stop: what the API and the reactor ask of a peer ------------------------------------
+    from exabgp.bgp.fsm import FSM
+
+    cfields = {'_teardown': 'int', '_restart': 'bool', 'fsm_idle': 'bool'}
+    cspec = lambda **kw: pylite.Spec(cls='Control', fields=cfields, ret='none', uses_now=False, slice_fields=True, object_params=('restart_neighbor',),  # noqa: E731
+                                     effect_methods={'fsm.change': ('fsm_idle', 'true')}, ignore_calls=('log.', 'self._delay.', 'self.stats.'), **kw)
+    t4 = pylite.translate(Peer.teardown, cspec(params={'code': 'int', 'restart': 'bool'}))
+    t5 = pylite.translate(Peer.reestablish, cspec())
+    t6 = pylite.translate(Peer.stop, cspec())
+    idle_ok = ast_arg_is(Peer.stop, 'self.fsm.change', 'FSM.IDLE')
     out = [
         '/-! `Peer.handle_connection` of `exabgp/reactor/peer/peer.py`, translated by `harness/pylite.py` (read next to the',
         '    source). `raise c s`: the incoming connection is answered with NOTIFICATION c/s and closed. -/',
@@ -64,6 +85,14 @@ def generate() -> dict[str, str]:
         pylite.lean_state_structure('Reset', rfields),
         '',
         t3.lean,
+        pylite.lean_state_structure('Control', cfields),
+        '',
+        '/-- `Peer.stop` hands `FSM.IDLE` to `self.fsm.change` (read from the call) -/',
+        f'def stopChangesToIdle : Bool := {"true" if idle_ok else "false"}',
+        '',
+        t4.lean,
+        t5.lean,
+        t6.lean,
         'end Exa.Generated.PyPeer',
         '',
     ]
